@@ -221,6 +221,10 @@ def split_reply(rid: int, j: int, a: dict, method: str):
 RETRY_AFTER = {"ok": "0", "invalid": "soon", "intr": "1"}
 
 
+NOISE_HEADERS = [[], [], ["Keep-Alive: timeout=5, max=100"], ["Connection: keep-alive", "Keep-Alive: timeout=30"], [],
+                 ["Server: s/1.0", "Date: Tue, 29 Sep 2026 00:00:00 GMT"], ["Keep-Alive: timeout=1"], ["Vary: Accept-Encoding"]]
+
+
 def build_reply(rid: int, j: int, a: dict, method: str):
     """(head bytes, body bytes, stray bytes, model head token)"""
     h = a["head"]
@@ -245,6 +249,9 @@ def build_reply(rid: int, j: int, a: dict, method: str):
         lines.append("Location: /r%d" % rid)
     if h["ra"]:
         lines.append("Retry-After: " + RETRY_AFTER[a.get("wait", "ok")])
+    # hop-by-hop / informational fields a real server adds and urllib3 must not act on when deciding whether a
+    # pooled connection is clean (deterministic in the request and attempt number; part of the opaque head)
+    lines += NOISE_HEADERS[(rid * 7 + j * 3) % len(NOISE_HEADERS)] if not h["close"] else []
     head = ("\r\n".join(lines) + "\r\n\r\n").encode()
     tok = "%d:%d:%s:%d:%d:%d" % (h["status"], int(h["close"]), "~" if cl is None else str(cl), int(h["loc"]), int(h["ra"]),
                                  int(is_chunked(a)))
